@@ -34,6 +34,8 @@ def leaves_full(widths):
     out += [F32, F64, STR]
     out += enum_leaves()
     out += [St(U(3)), St(I(5), F32), OOO]
+    # enums whose maximum is beyond double precision of log2 (bit-flag style enumerators)
+    out += [enum_with_max((1 << 49) - 1), enum_with_max(1 << 63)]
     return out
 
 
@@ -58,6 +60,12 @@ REP12 = [
 ]
 REP6 = [U(3), I(5), F32, STR, enum_with_max(2), St(U(3), I(6))]
 REP4 = [U(3), I(16), STR, enum_with_max(5)]
+
+
+def type_depth(t):
+    from .schema import type_depth as td
+
+    return td(t)
 
 
 def wrap_successors(t, nested_struct=True, arr_sizes=(1, 2, 3)):
